@@ -574,3 +574,121 @@ func runU4(c *core.Ctx) {
 		c.Undecided("ast/chunk-arith", token.NoPos, "only %d chunk computations found", n)
 	}
 }
+
+// U5: a search must not overwrite what it is searching for. A loop that compares a running
+// counter with X and, on a hit, stores the loop's position into X itself keeps comparing later
+// counter values with the *new* X: once the counter reaches that larger value the translation
+// fires a second time. (The idiom that works copies X first, or stops after the hit.)
+
+func init() {
+	register(&core.Rule{ID: "U5", Min: 1,
+		Doc: "Self-invalidating search targets in package ast: in a `for` loop, an `if C == X { X = ... }` whose C is a counter advanced by the same loop and whose body neither breaks nor returns is a violation - X is translated again when the counter later reaches the value just stored (logical-to-physical index translation in Node.Move with soft-deleted slots).",
+		Run: runU5})
+}
+
+func runU5(c *core.Ctx) {
+	p := c.Prog
+	pk := p.Pkg("ast")
+	if pk == nil {
+		c.Undecided("ast", token.NoPos, "package not loaded")
+		return
+	}
+	loops := 0
+	for _, fd := range core.FuncDecls(pk) {
+		if fd.Body == nil || strings.HasSuffix(p.Fset.Position(fd.Pos()).Filename, "_test.go") {
+			continue
+		}
+		fn := core.FuncName(pk, fd)
+		k := 0
+		ast.Inspect(fd.Body, func(nd ast.Node) bool {
+			fs, ok := nd.(*ast.ForStmt)
+			if !ok {
+				return true
+			}
+			// counters advanced by this loop (post statement or ++/+= in the body)
+			counters := map[types.Object]bool{}
+			note := func(st ast.Stmt) {
+				switch x := st.(type) {
+				case *ast.IncDecStmt:
+					if id, ok := x.X.(*ast.Ident); ok {
+						counters[p.ObjectOf(id)] = true
+					}
+				case *ast.AssignStmt:
+					if (x.Tok == token.ADD_ASSIGN || x.Tok == token.SUB_ASSIGN) && len(x.Lhs) == 1 {
+						if id, ok := x.Lhs[0].(*ast.Ident); ok {
+							counters[p.ObjectOf(id)] = true
+						}
+					}
+				}
+			}
+			if fs.Post != nil {
+				note(fs.Post)
+			}
+			ast.Inspect(fs.Body, func(m ast.Node) bool {
+				if st, ok := m.(ast.Stmt); ok {
+					note(st)
+				}
+				return true
+			})
+			found := false
+			for _, st := range fs.Body.List {
+				is, ok := st.(*ast.IfStmt)
+				if !ok {
+					continue
+				}
+				be, ok := ast.Unparen(is.Cond).(*ast.BinaryExpr)
+				if !ok || be.Op != token.EQL {
+					continue
+				}
+				a, aok := ast.Unparen(be.X).(*ast.Ident)
+				b, bok := ast.Unparen(be.Y).(*ast.Ident)
+				if !aok || !bok {
+					continue
+				}
+				var target *ast.Ident
+				switch {
+				case counters[p.ObjectOf(a)] && !counters[p.ObjectOf(b)]:
+					target = b
+				case counters[p.ObjectOf(b)] && !counters[p.ObjectOf(a)]:
+					target = a
+				default:
+					continue
+				}
+				found = true
+				assigns, leaves := false, false
+				ast.Inspect(is.Body, func(m ast.Node) bool {
+					switch x := m.(type) {
+					case *ast.AssignStmt:
+						for _, l := range x.Lhs {
+							if id, ok := ast.Unparen(l).(*ast.Ident); ok && p.ObjectOf(id) == p.ObjectOf(target) {
+								assigns = true
+							}
+						}
+					case *ast.BranchStmt:
+						if x.Tok == token.BREAK {
+							leaves = true
+						}
+					case *ast.ReturnStmt:
+						leaves = true
+					}
+					return true
+				})
+				k++
+				cn := fn + "/search-target#" + itoa(k)
+				c.Analysed(fn)
+				if assigns && !leaves {
+					c.Bad(cn, is.Pos(), "the loop compares its counter with %s and, on a hit, stores into %s itself without leaving the loop: when the counter later reaches the stored value the translation fires again (Move picks the wrong element once a soft-deleted slot precedes the target)", target.Name, target.Name)
+				} else {
+					c.OK(cn, is.Pos(), "search target %s is not overwritten by the search", target.Name)
+				}
+			}
+			if found {
+				loops++
+			}
+			return true
+		})
+	}
+	if loops == 0 {
+		c.OK("ast/search-targets", token.NoPos, "no loop in package ast compares a running counter with a variable it also assigns")
+	}
+}
